@@ -2,6 +2,7 @@
 import PymotoVerif.Drv.All
 import PymotoVerif.Props.C02
 import PymotoVerif.Props.C03
+import PymotoVerif.Props.C04
 import PymotoVerif.Props.C05
 import PymotoVerif.Props.C06
 import PymotoVerif.Props.C08
